@@ -928,7 +928,7 @@ void closeSession(Session &s) {
     std::vector<Ent> many;
     // (on the lines that run unobserved - see touchThisLine - the session is closed without looking at it first)
     if (s.open && s.lookBeforeClose) { json pre = observe(s); for (auto &x : pre["issues"]) { std::string m = x.get<std::string>(); if (m.rfind("before close: ", 0) != 0 && s.carried.size() < 10) s.carried.push_back("before close: " + m); }
-                  if (!getenv("VERIF_NO_AUX")) aux = collectAux(s); if (!getenv("VERIF_NO_MANY") && s.K == 0 && s.fresh.size() <= 8) many = collectMany(s); }     // (not on lines with ballast: see DESIGN section 8, "many handles + ballast")
+                  if (!getenv("VERIF_NO_AUX")) aux = collectAux(s); if (!getenv("VERIF_NO_MANY") && ((s.K == 0 && s.fresh.size() <= 8) || getenv("VERIF_FORCE_MANY"))) many = collectMany(s); }     // (not on lines with ballast: see DESIGN section 8, "many handles + ballast")
     // on every third line (by content hash): a SECOND File object on the same path is open in the process while
     // the session's File is closed; it is closed right afterwards (or right before).  Once both have returned from close() the file
     // must be released like after any close (descriptor check of the observer, reopen in every mode by the following steps).
@@ -938,6 +938,10 @@ void closeSession(Session &s) {
     if (two) { try { other = nix::File::open(s.path, nix::FileMode::ReadOnly); (void) other.blockCount(); } catch (const std::exception &ex) { s.carried.push_back(std::string("a second File object on the path of the open session could not be opened read-only: ") + ex.what()); two = false; } }
     if (two && s.closes % 2 == 0) { try { other.close(); } catch (const std::exception &ex) { s.carried.push_back(std::string("close() of the second File object threw: ") + ex.what()); } }
     s.f.close(); s.open = false;
+    if (getenv("VERIF_DEBUG_CLOSE")) {
+        auto cnt = [](unsigned t) { return (long) H5Fget_obj_count((hid_t) H5F_OBJ_ALL, t); };
+        fprintf(stderr, "DEBUGCLOSE files=%ld groups=%ld dsets=%ld types=%ld attrs=%ld foreign=%d K=%ld\n", cnt(H5F_OBJ_FILE), cnt(H5F_OBJ_GROUP), cnt(H5F_OBJ_DATASET), cnt(H5F_OBJ_DATATYPE), cnt(H5F_OBJ_ATTR), (int) s.haveForeign, s.K);
+    }
     if (two && s.closes % 2 != 0) { try { other.close(); } catch (const std::exception &ex) { s.carried.push_back(std::string("close() of the second File object threw: ") + ex.what()); } }
     other = nix::File();
     size_t alive = 0;
@@ -1102,7 +1106,7 @@ json handleInner(Ctx &c, const json &rec) {
         // in-process close + reopen intermittently fails inside HDF5, also on the unchanged tree)
         bool reopens = c.opts.value("reopen_check", false);
         for (auto &st : all) { std::string a = st["a"]; if (a == "Close" || a == "Open" || a == "Crash") reopens = true; }
-        if (reopens) s.K = 0;
+        if (reopens && !getenv("VERIF_FORCE_MANY")) s.K = 0;
     }
     // reading through the kept handles after every call is done on every other line only (by content hash): a read accessor with a
     // side effect can make a fault heal under observation, so half of the histories run unobserved until the judged step
